@@ -4,7 +4,7 @@
 FIX_COMMITS = [
     "02a02b1", "c32131a", "324bd77", "876de36", "e2492f3", "e522aa8", "02b45be", "2a6ea78", "7fbeea5", "b9a009d",
     "caa585b", "a0bae72", "49c1276", "a9a220e", "3b6199f", "d3ca28d", "e11250e", "3ac0c81", "b80de6a", "773425f",
-    "a468da5", "3e9bf5d", "abf25e6", "2859361", "650ac10", "2493939", "3e31ca3", "64111f6", "3e81fe2", "0648151",
+    "a468da5", "3e9bf5d", "abf25e6", "2859361", "650ac10", "2493939", "3e31ca3", "64111f6", "3e81fe2", "0648151", "661c1df",
 ]
 
 NOT_APPLICABLE = {
